@@ -28,9 +28,9 @@ ENUM_NAMES = ["A", "B", "C", "RED", "on", "type", "e1", "_x", "query"]
 DESC_CHARS = ["a", "b", " ", " ", "\n", '"', "\\", "\t", "\u2028", "\x0c", "\x85", "\u00e9", "\U0001f600",
               '"""', "#", "\r", "x", "\x0b", "  ", "\n\n", "{", "'"]
 EXEC_LOCS = ["QUERY", "MUTATION", "SUBSCRIPTION", "FIELD", "FRAGMENT_DEFINITION", "FRAGMENT_SPREAD",
-             "INLINE_FRAGMENT", "VARIABLE_DEFINITION"]
+             "INLINE_FRAGMENT", "VARIABLE_DEFINITION", "FRAGMENT_VARIABLE_DEFINITION"]
 TS_LOCS = ["SCHEMA", "SCALAR", "OBJECT", "FIELD_DEFINITION", "ARGUMENT_DEFINITION", "INTERFACE",
-           "UNION", "ENUM", "ENUM_VALUE", "INPUT_OBJECT", "INPUT_FIELD_DEFINITION"]
+           "UNION", "ENUM", "ENUM_VALUE", "INPUT_OBJECT", "INPUT_FIELD_DEFINITION", "DIRECTIVE_DEFINITION"]
 
 
 def g_desc(c, p=60):
@@ -182,7 +182,7 @@ def g_input_type(c, m, upto_input=None, max_wrappers=3):
     """An input type reference over the model built so far."""
     pool = BUILTIN + [s["name"] for s in m["scalars"]] + [e["name"] for e in m["enums"]]
     ins = [i["name"] for i in m["inputs"]][:upto_input]
-    pool = pool + ins + ins
+    pool = pool + ins + ins + ins
     return wrap(c, c.choose(pool), max_wrappers)
 
 
@@ -278,7 +278,7 @@ def g_model(c, incremental=False):
 
     def g_field(name):
         return {"name": name, "type": wrap(c, c.choose(out_pool), 3),
-                "args": g_input_values(c, m, ARG_NAMES, 0, 2) if c.chance(110) else [],
+                "args": g_input_values(c, m, ARG_NAMES, 1, 2) if c.chance(120) else [],
                 "desc": g_desc(c, 40), "dep": g_dep(c, 25)}
 
     def g_fields(lo, hi, taken):
@@ -537,7 +537,16 @@ def _perm(n, ints):
 # programmatic construction
 
 
-def build(m, resolvers=None, type_resolver=None, use_out_names=False, is_type_of=None,
+def unpy(x):
+    """Undo the ``py_`` out_names of input fields in a coerced value (deep)."""
+    if isinstance(x, dict):
+        return {(k[3:] if isinstance(k, str) and k.startswith("py_") else k): unpy(v) for k, v in x.items()}
+    if isinstance(x, list):
+        return [unpy(v) for v in x]
+    return x
+
+
+def build(m, resolvers=None, type_resolver=None, use_out_names=False, is_type_of=None, input_out_names=False,
           incremental=False):
     """GraphQLSchema assembled from type objects (thunks for fields)."""
     from graphql import (GraphQLArgument, GraphQLBoolean, GraphQLDirective, GraphQLEnumType,
@@ -580,7 +589,8 @@ def build(m, resolvers=None, type_resolver=None, use_out_names=False, is_type_of
     for i in m["inputs"]:
         types[i["name"]] = GraphQLInputObjectType(
             i["name"], (lambda i=i: {f["name"]: GraphQLInputField(
-                T(f["type"]), description=f["desc"], deprecation_reason=f["dep"], **default_kw(f))
+                T(f["type"]), description=f["desc"], deprecation_reason=f["dep"],
+                out_name=("py_" + f["name"]) if input_out_names else None, **default_kw(f))
                 for f in i["fields"]}), description=i["desc"], is_one_of=i["oneof"])
 
     def mk_fields(o):
